@@ -142,6 +142,12 @@ C01_Snapshot ==
 
 C02_OneLeaderPerTerm == \A a, b \in gh.leaders : a[1] = b[1] => a[2] = b[2]
 
+(* what makes that true: a node becomes leader of term T only after a majority of every voter set of its configuration
+   released a vote for it in T (its own candidacy counts as its vote) *)
+C02_ElectedByQuorum ==
+    (SameInc /\ Q.role = "L" /\ P.role # "L") =>
+        QuorumOf({j \in Nodes : <<Q.term, an>> \in gh.toldVotes[j]} \cup {an}, Q.conf)
+
 -----------------------------------------------------------------------------
 (* C03  Leader completeness and the election restriction                     *)
 
@@ -435,8 +441,12 @@ ResumesFor(j) ==
 C13_ProbeOne ==
     (LeaderStep /\ P.role = "L" /\ P.term = Q.term) =>
         \A j \in DOMAIN P.pr :
-            (P.pr[j].state = "P" /\ P.pr[j].paused /\ ~ResumesFor(j)) =>
-                GenTo(j, {"App", "Snap"}) = {}
+            /\ (P.pr[j].state = "P" /\ P.pr[j].paused /\ ~ResumesFor(j)) =>
+                   GenTo(j, {"App", "Snap"}) = {}
+            \* an acknowledgement that tells nothing new (index <= matched) does not end the wait for the probe's answer
+            /\ (P.pr[j].state = "P" /\ P.pr[j].paused /\ IsDeliver("AppResp") /\ M.from = j /\ ~M.rej
+                   /\ M.idx <= P.pr[j].matched /\ j \in DOMAIN Q.pr /\ Q.pr[j].state = "P") =>
+                   (Q.pr[j].paused /\ GenTo(j, {"App", "Snap"}) = {})
 
 SnapshotEndsFor(j) ==
     \/ (evt.ev = "ReportSnap" /\ evt.a.j = j)
@@ -627,7 +637,7 @@ Chk(name, ok) == IF ok THEN {} ELSE {name}
 
 Violations ==
     Chk("C01.Agree", C01_Agree) \cup Chk("C01.Handed", C01_Handed) \cup Chk("C01.Snapshot", C01_Snapshot)
-    \cup Chk("C02.OneLeaderPerTerm", C02_OneLeaderPerTerm)
+    \cup Chk("C02.OneLeaderPerTerm", C02_OneLeaderPerTerm) \cup Chk("C02.ElectedByQuorum", C02_ElectedByQuorum)
     \cup Chk("C03.LeaderComplete", C03_LeaderComplete) \cup Chk("C03.GrantOnlyUpToDate", C03_GrantOnlyUpToDate)
     \cup Chk("C04.LeaderOwnTerm", C04_LeaderOwnTerm) \cup Chk("C04.LeaderQuorumDurable", C04_LeaderQuorumDurable)
     \cup Chk("C04.NonLeaderBounded", C04_NonLeaderBounded) \cup Chk("C04.MatchedIsDurable", C04_MatchedIsDurable)
